@@ -312,7 +312,7 @@ class Obligation:
     """
 
     def __init__(self, name, encs, build, schemas=("pos", "inv", "unit"), tactic="auto", timeout_s=120,
-                 twin=True, signature=None, replay=None, bounds=None, case=None, tol=1e-3, group=None):
+                 twin=True, signature=None, replay=None, bounds=None, case=None, tol=1e-3, group=None, expand_logs=False):
         self.name, self.encs, self.build = name, list(encs), build
         self.schemas, self.tactic, self.timeout_s, self.twin = schemas, tactic, timeout_s, twin
         self.signature = signature or name
@@ -321,6 +321,7 @@ class Obligation:
         self.case = case
         self.tol = tol
         self.group = group
+        self.expand_logs = expand_logs
 
 
 class Result:
@@ -341,6 +342,17 @@ def build_query(ob):
     built = ob.build(views[0] if len(views) == 1 else views)
     hyps, goal = built[0], built[1]
     hyps = list(hyps) + side_of(ob.encs)
+    if ob.expand_logs:
+        ex, side = smt.expand_logs(hyps + [goal])
+        hyps, goal = ex[:-1], ex[-1]
+        # validity of the rewriting: every argument that was split must be positive under the hypotheses
+        for c in side:
+            sc = z3.simplify(c)
+            if z3.is_true(sc):
+                continue
+            v, _, _, _ = smt.check_sat(hyps + [z3.Not(c)], 20, "auto", ob.schemas)
+            if v != "unsat":
+                raise Inconclusive(f"log expansion needs {c} which does not follow from the hypotheses ({v})")
     if len(built) > 2 and built[2]:
         # generalisation: identical (hash-consed) sub-terms are replaced by fresh constants of the
         # same sort -- sound for validity: what holds for an arbitrary value holds for the term
@@ -579,6 +591,9 @@ class Check:
 
     def run(self, obligations, label=None, parallel=True):
         obligations = list(obligations)
+        only = os.environ.get("VERIF_ONLY")
+        if only:
+            obligations = [o for o in obligations if only in o.name or only in o.signature]
         pre = {}
         if parallel and len(obligations) > 1:
             try:
@@ -594,6 +609,8 @@ class Check:
             except Inconclusive as ex:
                 r = Result(ob, "unknown", 0.0, detail=str(ex))
             self.record(r)
+            if os.environ.get("VERIF_VERBOSE"):
+                print(f"  [{r.verdict:7s}] {r.seconds:7.2f}s twin={r.twin} {ob.name[:110]} {r.info.get('tried', r.info.get('tactic'))} {(r.detail or '')[:200]}")
 
     def record(self, r):
         self.results.append(r)
